@@ -37,14 +37,9 @@ SET_ITER_BASELINE = {
     ('edb.pgsql.compiler.relctx._pull_path_namespace', 's_paths'):
         'fills path maps keyed by (path_id, aspect); insertion order of '
         'those dicts is not printed',
-    ('edb.pgsql.compiler.relctx._plain_join',
-     'right_rvar.query.path_bonds'):
-        'AND-chain order follows a set of (PathId, bool): stable within a '
-        'process, may differ between processes (PathId hash mixes strings); '
-        'cannot be shown here',
-    ('edb.pgsql.compiler.relctx._lateral_union_join',
-     'right_rvar.query.path_bonds'):
-        'same as _plain_join',
+    # (path_bonds of _plain_join / _lateral_union_join: shown to differ
+    # between processes, repaired by making the field insertion-ordered;
+    # no longer excused here)
     ('edb.pgsql.compiler.relctx.range_for_ptrref', 'component_refs'):
         'UNION arm order follows a set of PointerRef (hash mixes the class '
         'object): stable within a process; cannot be shown here',
@@ -375,6 +370,7 @@ def run(repo: Repo, ctx) -> None:
     _r6(repo, ctx)
     _r7(repo, ctx)
     _r8(repo, ctx)
+    _r9(repo, ctx)
 
 
 LATERAL_NOT_FORWARDED_OK = {
@@ -1024,3 +1020,75 @@ def _r8(repo: Repo, ctx) -> None:
                    f'filtered by {sorted(attrs)}; populate_argmap decides '
                    f'physical slots by `{slot_attr}`', ct.loc,
                    sample=' '.join(norm(i) for i in g.ifs))
+
+
+def _r9(repo: Repo, ctx) -> None:
+    """C13.R9 two scope disciplines of the relation context.
+
+    (a) a SELECT built by the join helpers has ONE join tree: the first range
+        var is appended to an empty FROM list, every later one is folded into
+        `from_clause[0]` as a JoinExpr.  A later LATERAL item may refer to an
+        earlier one only when it is to its left *in the same join tree*; a
+        second comma-separated FROM item is invisible inside the JOIN ... ON
+        and the LATERAL subselects of the first.
+    (b) a NEWREL context (how every CTE body is compiled) starts from an
+        empty path scope: CTEs cannot be correlated, so a path bound in the
+        enclosing statement must not resolve to the outer range var there."""
+    ctx.floor('C13.R9', 3)
+    rc = repo.module('edb.pgsql.compiler.relctx')
+    n = 0
+    for f in repo._funcs_of(rc):
+        if f.name not in ('_plain_join', '_lateral_union_join'):
+            continue
+        ctx.saw(f)
+        g = CFG(f.node)
+        for nd in g.nodes:
+            if nd.kind != 'stmt' or nd.ast is None:
+                continue
+            for c in ast.walk(nd.ast):
+                if isinstance(c, ast.Call) and isinstance(
+                        c.func, ast.Attribute) and c.func.attr in (
+                        'append', 'insert', 'extend') and norm(
+                        c.func.value).endswith('.from_clause'):
+                    n += 1
+                    recv = norm(c.func.value)
+                    ok = any(t.kind == 'test' and norm(
+                        t.ast.test if hasattr(t.ast, 'test') else t.ast) ==
+                        f'not {recv}' and g.edge_dominates(t.id, 'T', nd.id)
+                        for t in g.nodes)
+                    ctx.ob('C13.R9', f'{f.name}:single-join-tree', ok,
+                           f'{f.name} adds a FROM item to a non-empty FROM '
+                           f'list instead of joining it into from_clause[0]: '
+                           f'a range var joined later that is bonded to it '
+                           f'is emitted as `A JOIN LATERAL (... b.x ...) ON '
+                           f'b.x = ..., B AS b`, where b is out of scope',
+                           f'{f.module.rel()}:{c.lineno}',
+                           sample=f'append under `not {recv}`')
+    if n < 2:
+        raise AnalysisError('C13.R9: FROM-list appends of the join helpers '
+                            'not found')
+    cl = repo.cls('edb.pgsql.compiler.context.CompilerContextLevel')
+    init = cl.methods.get('__init__')
+    if init is None:
+        raise AnalysisError('C13.R9: CompilerContextLevel.__init__ not found')
+    ctx.saw(init)
+    arm = None
+    for t in ast.walk(init.node):
+        if isinstance(t, ast.If) and 'ContextSwitchMode.NEWREL' in norm(
+                t.test):
+            arm = t
+    if arm is None:
+        raise AnalysisError('C13.R9: NEWREL arm not found')
+    prev = init.params()[1] if len(init.params()) > 1 else 'prevlevel'
+    sets = [a for st in arm.body for a in ast.walk(st)
+            if isinstance(a, ast.Assign) and norm(a.targets[0]) ==
+            'self.path_scope']
+    ok = len(sets) == 1 and not any(
+        isinstance(x, ast.Name) and x.id == prev
+        for x in ast.walk(sets[0].value))
+    ctx.ob('C13.R9', 'CompilerContextLevel:newrel-empty-path-scope', ok,
+           'a NEWREL context inherits the path scope of the enclosing '
+           'statement: a path bound outside resolves, inside a CTE body, to '
+           'the outer range var (`WITH r AS (SELECT "A~2".id ...)` with no '
+           'FROM), which PostgreSQL rejects because CTEs cannot be '
+           'correlated', init.loc, sample='self.path_scope = ChainMap()')
